@@ -35,7 +35,7 @@ Opt(q)    == IF q = <<>> THEN "" ELSE q[1]
 G(s, sep, trimmed, na) == [s |-> s, sep |-> sep, trimmed |-> trimmed, na |-> na]
 Pl(s) == G(s, FALSE, s, FALSE)
 
-E200 == "éééééééééééééééééééééééééééééééééééééééééééééééééééééééééééééééééééééééééééééééééééééééééééééééééééééééééééééééééééééééééééééééééééééééééééééééééééééééééééééééééééééééééééééééééééééééééééééééééééééé"
+E200 == "éééééééééééééééééééééééééééééééééééééééééééééééééééééééééééééééééééééééééééééééééééééééééééééééééééééééééééééééééééééééééééééééééééééééééééééééééééééééééééééééééééééééééééééééééééééééééééééééééééééééé"
 \* a complete forged row: the first line keeps 7 fields, the second one is a row for a region "zz"
 Inject == "1.0|\nzz|00000000000000000000000000000000|00000000000000000000000000000000||666|forged"
 
@@ -256,6 +256,6 @@ Independence ==
 ValidAnswered == \A c \in Conns : (conn[c].st = "sent" /\ IsValid(DB, conn[c].req)) ~> (conn[c].st = "answered")
 BadServed     == \A c \in Conns : (conn[c].st = "sent" /\ Complete(conn[c].req)) ~> (conn[c].st \in {"answered", "closed", "done"})
 \* no connection is held for ever by a client that never finishes its request
-NeverHeld     == \A c \in Conns : (conn[c].st = "open" \/ (conn[c].st = "sent" /\ ~Complete(conn[c].req)))
-                                     ~> (conn[c].st \in {"closed", "done"})
+Held(c)   == conn[c].st = "open" \/ (conn[c].st = "sent" /\ ~Complete(conn[c].req))
+NeverHeld == \A c \in Conns : Held(c) ~> ~Held(c)
 =============================================================================
